@@ -49,20 +49,23 @@ Fixpoint dec_ops (l : list sexp) : option (list op) :=
   | x :: r => let? o := dec_op x in let? os := dec_ops r in Some (o :: os)
   end.
 
-Fixpoint dec_bufs (l : list sexp) : option (list (list Z)) :=
+(* an observation is the buffer after the operation, or the symbol `panic` (kept as [None]) *)
+Fixpoint dec_bufs (l : list sexp) : option (list (option (list Z))) :=
   match l with
   | [] => Some []
-  | B x :: r => let? xs := dec_bufs r in Some (x :: xs)
+  | B x :: r => let? xs := dec_bufs r in Some (Some x :: xs)
+  | S _ :: r => let? xs := dec_bufs r in Some (None :: xs)
   | _ => None
   end.
 
 (* walk the op list with the implementation's buffers; model state [m] runs alongside.
    The oracle uses the implementation's previous buffer and the (deterministic) geometry
    and text state, which no drawing operation changes except RenderText's cursor. *)
-Fixpoint walk (m : img) (prev : list Z) (ops : list op) (bufs : list (list Z)) (k : Z) (nt : bool) : sexp :=
+Fixpoint walk (m : img) (prev : list Z) (ops : list op) (bufs : list (option (list Z))) (k : Z) (nt : bool) : sexp :=
   match ops, bufs with
   | [], [] => v_ok nt
-  | o :: ops', obs :: bufs' =>
+  | _ :: _, None :: _ => L [sym "specfail"; sym "c16-panic"; I k]     (* "no operation panics" *)
+  | o :: ops', Some obs :: bufs' =>
     let m' := run_op m o in
     (* a caller buffer longer than the canvas needs (CreateFromBytes keeps the whole slice): the bytes
        behind the last canvas row are not pixels of the canvas and must never change *)
